@@ -3,8 +3,8 @@ CONSTANTS
   Digests = {d1, d2}
   Threads = {t1, t2, t3}
   NoDigest = NoDigest
-  MaxGets = 5
-  MaxUpd = 2
+  MaxGets = 6
+  MaxUpd = 3
   WritesPerRead = 3
   VersionRules = {"cur+1"}
   WriteGuards = {TRUE}
